@@ -103,8 +103,11 @@ PENDING = {
         "min/max reduced to 0-d: lazy dtype int64 for bool/int32 input (PartialReduce._meta does meta.sum())",
     "expr-vs-numpy:slice&None&int:shape":
         "x[int, None, ...]: None inserted at the position shifted by the preceding integers (SlicesWrapNone uses the shifted where_none for the block indexer)",
-    "expr:slice&None&int:ValueError@array/core.py:concatenate3":
-        "same mechanism with several blocks: wrongly shaped blocks cannot be assembled",
+    "expr:slice&None&int:ValueError":
+        "same mechanism with several blocks: wrongly shaped blocks cannot be assembled (concatenate3) / sliced (getitem)",
+    "expr:rechunk&multi-step-plan:TypeError@_task_spec.py:__call__":
+        "rechunk whose plan has >= 2 stages: _compute_rechunk returns the shadowed loop variable `name` (a split key tuple) "
+        "instead of merge_name, so the second stage reads blocks from a tuple",
     "expr:any-op-on-input-without-meta:ValueError":
         "stack() meta has a non-zero dimension -> elementwise with another array has _meta None -> the next operation raises",
     "expr:any-op-on-input-without-meta:AttributeError": "same mechanism, other raise site ('NoneType' object has no attribute 'dtype')",
@@ -295,10 +298,11 @@ def _opdesc(case, k, pref):
             fl.append("None")
         if "i" in kinds:
             fl.append("int")
-        if any(it[0] == "s" and (it[3] or 1) < 0 for it in st["idx"]):
-            fl.append("negative-step")
-        if 0 in pref[k].shape:
-            fl.append("empty-result")
+        if not ("n" in kinds and "i" in kinds):      # None together with an integer is a mechanism of its own
+            if any(it[0] == "s" and (it[3] or 1) < 0 for it in st["idx"]):
+                fl.append("negative-step")
+            if 0 in pref[k].shape:
+                fl.append("empty-result")
     elif op == "red":
         name = "red:" + ("min-max" if st["f"] in ("min", "max") else st["f"])
         fl.append("bool-or-sub-64-bit-input" if narrow else "")
@@ -309,6 +313,8 @@ def _opdesc(case, k, pref):
         name = "rechunk:" + ("dict" if isinstance(ch, dict) else "tuple" if isinstance(ch, list) else "minus1" if ch == -1 else "int")
         if st.get("balance"):
             fl.append("balance")
+        if _rechunk_plan_steps(case, k) > 1:
+            name, fl = "rechunk", ["multi-step-plan"]       # the form of the chunks argument does not matter then
     elif op in ("concat", "stack"):
         name = op
         if inp.ndim == 0:
@@ -344,6 +350,18 @@ def _walk_classes(ctx, expr):
         ctx.distinct("expr_classes", type(node).__name__)
 
 
+def _rechunk_plan_steps(case, k):
+    """Number of stages dask.array.rechunk.plan_rechunk chooses for the k-th node (a rechunk); 0 when unknown."""
+    import dask.array as da
+    from dask.array.rechunk import plan_rechunk
+
+    try:
+        a, b = P.evaluate(case, da, upto=k - 1), P.evaluate(case, da, upto=k)
+        return len(plan_rechunk(a.chunks, b.chunks, a.dtype.itemsize))
+    except Exception:  # noqa: BLE001
+        return 0
+
+
 def _input_meta_none(case, k):
     """True when the input expression of the k-th node has no meta (the engine lost it earlier)."""
     import dask.array as da
@@ -362,6 +380,11 @@ def _exc_violation(ctx, case, k, pref, ex):
         import traceback
         ctx.violation("expr:any-op-on-input-without-meta:%s" % type(ex).__name__, "%s: %s" % (type(ex).__name__, ex),
                       op=_opdesc(case, k, pref), traceback="".join(traceback.format_exception(type(ex), ex, ex.__traceback__))[-2500:])
+    elif _opdesc(case, k, pref) == "slice&None&int":
+        # one mechanism (None inserted at the shifted position -> wrongly shaped blocks), several raise sites
+        import traceback
+        ctx.violation("expr:slice&None&int:%s" % type(ex).__name__, "%s: %s" % (type(ex).__name__, ex),
+                      traceback="".join(traceback.format_exception(type(ex), ex, ex.__traceback__))[-2500:])
     else:
         ctx.exception(ex, prefix="expr:%s" % _opdesc(case, k, pref))
 
